@@ -429,6 +429,10 @@ func (w *binaryWriter) Finish() error {
 		if w.err = w.emit(seq); w.err != nil {
 			return w.err
 		}
+
+		// Buffer the next batch of values too: their symbols must be declared by a
+		// symbol table that precedes them in the stream.
+		w.bufs.push(&datagram{})
 	}
 
 	return nil
